@@ -5,7 +5,7 @@ import json, os, glob, re
 V = os.path.dirname(os.path.dirname(os.path.abspath(__file__)))
 det = json.load(open(f"{V}/seeded/detection.json"))
 rows = []
-for d in sorted(glob.glob(f"{V}/seeded/C*_[mnpqrstu]*")):
+for d in sorted(glob.glob(f"{V}/seeded/C*_[mnpqrstuv]*")):
     sid = os.path.basename(d)
     m = json.load(open(f"{d}/meta.json"))
     r = det.get(sid, {})
